@@ -7,7 +7,7 @@ referenced columns' entries, and the count of `Definition` tags.  The request ca
 reading), the definition dictionary and the JSON documents; nothing is recorded from the real validator.  Compared with the
 real `Sidecar.validate(schema, extra_def_dicts)`: exception class, or the complete sorted
 (kind, code, severity, sidecar column, key) list.  Outside the closed fragment (answered `unmodelled`, skipped and counted):
-sidecars that declare definitions, `n/a` spliced into a reference, unsupported value-class patterns, assembled strings on
+sidecars that declare definitions, unsupported value-class patterns, assembled strings on
 which the real validator raises.
 """
 import io
@@ -67,6 +67,8 @@ def gen_doc(rng, g):
         targets = [n for n in bearing if n not in referrers]
         for n in referrers:
             t = rng.choice(targets) if rng.random() < 0.93 else n
+            if rng.random() < 0.15:
+                t = "HED"                        # no HED column in a sidecar: the reference is spliced with "n/a"
             form = rng.choice(FORMS) if rng.random() < 0.9 else rng.choice(BAD_FORMS)
             h = doc[n]["HED"]
             if isinstance(h, str):
@@ -75,6 +77,9 @@ def gen_doc(rng, g):
                 for i, key in enumerate(h):
                     if i == 0 or rng.random() < 0.5:
                         h[key] = form % {"t": t, "s": rng.choice(OWN)}
+        for t in targets:                        # an "n/a" entry in a referenced column: removed with its comma / parentheses
+            if isinstance(doc[t]["HED"], dict) and rng.random() < 0.25:
+                doc[t]["HED"][rng.choice(list(doc[t]["HED"]))] = "n/a"
         if rng.random() < 0.06 and targets:      # a reference inside a referenced column (nested)
             t = targets[0]
             if isinstance(doc[t]["HED"], dict):
@@ -87,6 +92,8 @@ WITNESS = [
     {"a": {"HED": {"go": "Red, {b}", "stop": "(Blue, {b})"}}, "b": {"HED": {"x": "Red", "y": "(Def/A, Onset)"}}},
     {"a": {"HED": "Label/#, ({b})"}, "b": {"HED": {"x": "Greenish", "y": "Item-count/abc"}}},
     {"a": {"HED": {"go": "(Def/C, Green)", "stop": "Def/Zed"}}},
+    {"a": {"HED": {"go": "Red, ({b}), Red", "stop": "({b}, (Blue, {b})), {HED}"}}, "b": {"HED": {"x": "n/a", "y": "Green"}}},
+    {"a": {"HED": "(Label/#, {HED}), {b}"}, "b": {"HED": {"x": "n/a"}}},
 ]
 
 
@@ -142,6 +149,8 @@ def run_closed(ctx, docs=None):
         mine = sorted(m["ok"], key=c08.obs_key)
         refs = any("{" in x for x in c08._walk_strings(d))
         ctx.count("closed:compared" + ("-with-refs" if refs else ""))
+        if refs and any(x == "n/a" or "{HED}" in x for x in c08._walk_strings(d)):
+            ctx.count("closed:compared-with-n/a-splice")
         for i in mine:
             ctx.count("closed:issue-from-" + ("sidecar-layer" if i[0] else "string-layer"))
         if mine != out["ok"]:
